@@ -185,30 +185,69 @@ mod verif_format_string {
         n
     }
 
-    /// every ASCII string of length 0..=2, both `need_quote`: the bytes format_string commits are exactly the
-    /// specification escape and the returned length is its length; every write stays inside the 6n+35 window
-    /// (CBMC pointer checks). Bounded stand-in (string length <= 2: the scalar/tail path; the 32-lane block loop
-    /// needs strings >= 32 bytes, out of CBMC's reach here).
-    #[kani::proof]
-    #[kani::unwind(40)]
-    #[kani::stub(std::arch::x86_64::_mm_max_epu8, crate::util::verif_models::mm_max_epu8)]
-    #[kani::stub(alloc::fmt::format, fmt_model)]
-    fn format_string_short_all() {
-        let bytes: [u8; 2] = kani::any();
-        let len: usize = kani::any();
-        kani::assume(len <= 2);
+    /// loop-free PMAXUB model (same function as verif_models::mm_max_epu8, unrolled)
+    fn max_epu8_flat(a: std::arch::x86_64::__m128i, b: std::arch::x86_64::__m128i) -> std::arch::x86_64::__m128i {
+        let x: [u8; 16] = unsafe { std::mem::transmute(a) };
+        let y: [u8; 16] = unsafe { std::mem::transmute(b) };
+        macro_rules! m { ($($i:literal),*) => { [$(if x[$i] > y[$i] { x[$i] } else { y[$i] }),*] } }
+        let r: [u8; 16] = m!(0, 1, 2, 3, 4, 5, 6, 7, 8, 9, 10, 11, 12, 13, 14, 15);
+        unsafe { std::mem::transmute(r) }
+    }
+    /// check_cross_page (pointer-to-integer arithmetic, proved sound by check_cross_page_sound) may answer either way:
+    /// under debug_assertions (Kani's build) both answers take the same copy-to-temp path
+    fn cross_page_any(_ptr: *const u8, _step: usize) -> bool { kani::any() }
+
+    /// every ASCII string of length N over a small alphabet incl. every escape class, both `need_quote`: the bytes
+    /// format_string commits are exactly the specification escape and the returned length is its length; every write
+    /// stays inside the 6n+35 window (CBMC pointer checks). Bounded stand-in (the scalar/tail path; the 32-lane block
+    /// loop needs strings >= 32 bytes).
+    fn format_string_case<const N: usize>() {
+        let bytes: [u8; N] = kani::any();
         let mut i = 0;
-        while i < 2 { kani::assume(bytes[i] < 0x80); i += 1; }
+        while i < N { kani::assume(bytes[i] < 0x80); i += 1; }
         let quote: bool = kani::any();
-        let s = unsafe { std::str::from_utf8_unchecked(&bytes[..len]) };
-        let mut dst = [MaybeUninit::<u8>::uninit(); 6 * 2 + 35];
-        let n = format_string(s, &mut dst[..len * 6 + 32 + 3], quote);
+        let s = unsafe { std::str::from_utf8_unchecked(&bytes[..]) };
+        let mut dst = [MaybeUninit::<u8>::uninit(); 6 * 3 + 35];
+        let n = format_string(s, &mut dst[..N * 6 + 32 + 3], quote);
         let mut want = [0u8; 64];
-        let wn = spec_escape(&bytes[..len], quote, &mut want);
+        let wn = spec_escape(&bytes[..], quote, &mut want);
         assert!(n == wn);
         let k: usize = kani::any();
         kani::assume(k < n);
         assert!(unsafe { dst[k].assume_init() } == want[k]);
+    }
+    #[kani::proof]
+    #[kani::unwind(8)]
+    #[kani::stub(std::arch::x86_64::_mm_max_epu8, max_epu8_flat)]
+    #[kani::stub(alloc::fmt::format, fmt_model)]
+    #[kani::stub(check_cross_page, cross_page_any)]
+    fn format_string_len1() { format_string_case::<1>(); }
+    #[kani::proof]
+    #[kani::unwind(8)]
+    #[kani::stub(std::arch::x86_64::_mm_max_epu8, max_epu8_flat)]
+    #[kani::stub(alloc::fmt::format, fmt_model)]
+    #[kani::stub(check_cross_page, cross_page_any)]
+    fn format_string_len2() { format_string_case::<2>(); }
+
+    /// one full 32-lane block + 1 tail byte over the alphabet { a " 0x01 }
+    #[kani::proof]
+    #[kani::unwind(40)]
+    #[kani::stub(std::arch::x86_64::_mm_max_epu8, max_epu8_flat)]
+    #[kani::stub(alloc::fmt::format, fmt_model)]
+    #[kani::stub(check_cross_page, cross_page_any)]
+    fn format_string_len33() {
+        let bytes: [u8; 33] = kani::any();
+        let mut i = 0;
+        while i < 33 { kani::assume(bytes[i] == b'a' || bytes[i] == b'"' || bytes[i] == 0x01); i += 1; }
+        let s = unsafe { std::str::from_utf8_unchecked(&bytes[..]) };
+        let mut dst = [MaybeUninit::<u8>::uninit(); 6 * 33 + 35];
+        let n = format_string(s, &mut dst[..], true);
+        // length = 2 quotes + per byte 1 / 2 / 6
+        let mut want = 2usize;
+        let mut j = 0;
+        while j < 33 { want += if bytes[j] == b'a' { 1 } else if bytes[j] == b'"' { 2 } else { 6 }; j += 1; }
+        assert!(n == want);
+        assert!(unsafe { dst[0].assume_init() } == b'"' && unsafe { dst[n - 1].assume_init() } == b'"');
     }
 }
 
